@@ -545,7 +545,12 @@ func runC06Early(t *testing.T, variant string, w, n int) c06XCase {
 			next = d.Idx + 1
 			isFinal := false
 			if d.From == "server" {
-				for _, r := range vParseDatagram(d.Data, 0) {
+				// records towards the client carry the connection ID the client chose (4 bytes in the CID variant)
+				cidLen := 0
+				if variant == "psk-gcm-cid" {
+					cidLen = 4
+				}
+				for _, r := range vParseDatagram(d.Data, cidLen) {
 					if r.CT == int(protocol.ContentTypeChangeCipherSpec) {
 						isFinal = true
 					}
